@@ -20,10 +20,13 @@ fn check(case: &Case, obs: &mut Obs) -> CheckResult {
 }
 
 fn check_inner(case: &Case, obs: &mut Obs) -> CheckResult {
-    let s = sim::run(world(), case, Focus::C06, obs)?;
+    let (s, deferred) = sim::run(world(), case, Focus::C06, obs)?;
     let c = &case.cfg;
     if !c.valid() {
         return Ok(());
+    }
+    if deferred.is_some() {
+        obs.label("history-continued-past-a-violation");
     }
     if c.min_delay_ms == c.threshold_ms {
         obs.label("config-corner:min_delay==threshold");
@@ -73,7 +76,10 @@ fn check_inner(case: &Case, obs: &mut Obs) -> CheckResult {
         obs.label("nontrivial");
         obs.nontrivial(&serde_json::to_string(case).unwrap_or_default());
     }
-    Ok(())
+    match deferred {
+        Some(f) => Err(f),
+        None => Ok(()),
+    }
 }
 
 // ------------------------------------------------------------------------------ configurations
@@ -159,7 +165,7 @@ fn case_strategy(max_ops: usize) -> impl Strategy<Value = Case> {
 }
 
 fn run_random(ctx: &Ctx) {
-    let n = ctx.tier.pick(3_000, 300_000);
+    let n = ctx.tier.pick(5_000, 400_000);
     let max_ops = ctx.tier.pick(30, 60);
     ctx.run_prop("histories-random", n, || case_strategy(max_ops), check);
 }
@@ -246,6 +252,7 @@ fn main() {
             "maintenance runs exactly at the instants next_maintain() names (the real task runs it at or after them, which only widens the windows reported)",
             "backoff jitter is 0 so that schedules are exact; backoff parameters are positive with max >= min and factor >= 1 (there is no public setter and no validation for them)",
             "fetches resolve instantly",
+            "ranking ties are broken nondeterministically by the manager (new paths pass through a randomly keyed HashMap before a stable sort), so one history has several executions; no assertion depends on WHICH of equally ranked paths wins: every oracle constrains whatever path is returned (policy, provenance, liveness), sizes, schedules, or - in C07 - scores up to a 1e-3 tolerance where any path within tolerance of the best is accepted; replays and regressions run a case 33 times and fail if any execution fails",
         ],
         &subs,
         post,
